@@ -59,7 +59,7 @@ func depthStepHelper(p *Prog, h *ssa.Function, field string, op token.Token, dep
 	if h == nil || depth <= 0 || h.Parent() != nil || h.Blocks == nil || !p.InPkg(h) || len(h.Blocks) > 24 {
 		return 0, false
 	}
-	if containsDepthStep(p, h, field, oppositeStep(op), 2) {
+	if containsDepthStepRun(p, h, field, oppositeStep(op), 2) {
 		return 0, false
 	}
 	var on *ssa.Parameter
@@ -136,6 +136,24 @@ func depthWithin(p *Prog, c ssa.Value, pol bool, field string) (capv int64, ok b
 	}
 	if condHolds(p, c, pol, nil, direct) {
 		return capv, true
+	}
+	// the `within` result of an enter-helper that steps the counter and compares it with a bound it is given
+	if bs, call, isBS := boolStepCond(p, c); isBS && pol == bs.withinWhen && fieldName(bs.field.X.Type(), bs.field.Field) == field {
+		if n := structOf(bs.field.X.Type()); n != nil && n.Obj().Name() == depthHolder {
+			kv := bs.boundConst
+			if bs.boundParam != nil {
+				kv = 0
+				args := callArgs(call.Common())
+				if i := indexOfParam(call.Common().StaticCallee(), bs.boundParam); i >= 0 && i < len(args) {
+					if k, isK := constInt(args[i]); isK {
+						kv = k
+					}
+				}
+			}
+			if kv > 0 {
+				return kv, true
+			}
+		}
 	}
 	x, eq, isNil := condIsNilTest(c)
 	if !isNil || eq != pol {
@@ -281,7 +299,27 @@ func depthUndone(p *Prog, in ssa.Instruction, field string) (ok bool, how string
 			} else {
 				fn = d.Call.StaticCallee()
 			}
-			if fn == nil || fn.Blocks == nil || !depthDecrements(p, d, fn, field, incCtx, incIsCall) {
+			if fn == nil {
+				// `leave, within := n.enter(max); defer leave()`: the closure the stepping call itself handed back
+				if cf, from := returnedClosure(p, d.Call.Value); cf != nil && ssa.Instruction(from) == in {
+					decrements := false
+					for _, bb := range cf.Blocks {
+						for _, y := range bb.Instrs {
+							if isDepthStore(y, field, token.SUB) {
+								decrements = true
+							}
+						}
+					}
+					if decrements {
+						pass, _ := AllExitsPass(in, func(z ssa.Instruction) bool { return z == ssa.Instruction(d) })
+						if pass {
+							return true, "the closure the step handed back is deferred on every path", nil
+						}
+					}
+				}
+				continue
+			}
+			if fn.Blocks == nil || !depthDecrements(p, d, fn, field, incCtx, incIsCall) {
 				continue
 			}
 			// the defer must be registered on every path from the increment to any exit
@@ -354,4 +392,74 @@ func steppedByExecutor(p *Prog, st *ssa.Store, field string) bool {
 		found = true
 	})
 	return found
+}
+
+// containsDepthStepRun: like containsDepthStep, but a closure of fn counts only when fn itself runs it (calls, defers
+// or starts it): a closure that fn merely hands back — `enter() (leave func(), within bool)` — runs when the caller
+// says so, not as part of the step.
+func containsDepthStepRun(p *Prog, fn *ssa.Function, field string, op token.Token, depth int) bool {
+	run := []*ssa.Function{fn}
+	seen := map[*ssa.Function]bool{fn: true}
+	for i := 0; i < len(run); i++ {
+		g := run[i]
+		for _, b := range g.Blocks {
+			for _, in := range b.Instrs {
+				if isDepthStore(in, field, op) {
+					return true
+				}
+				ci, isCall := in.(ssa.CallInstruction)
+				if !isCall {
+					continue
+				}
+				if mc, isMC := ci.Common().Value.(*ssa.MakeClosure); isMC {
+					if cf, ok := mc.Fn.(*ssa.Function); ok && !seen[cf] {
+						seen[cf] = true
+						run = append(run, cf)
+					}
+					continue
+				}
+				if depth <= 0 {
+					continue
+				}
+				if c := ci.Common().StaticCallee(); c != nil && c != fn && c.Parent() == nil && c.Blocks != nil && p.InPkg(c) && containsDepthStepRun(p, c, field, op, depth-1) {
+					return true
+				}
+			}
+		}
+	}
+	return false
+}
+
+// returnedClosure: the function value v is result #idx of a call of a package helper every return of which hands back,
+// at that index, a closure of one function: that function and the call.
+func returnedClosure(p *Prog, v ssa.Value) (*ssa.Function, *ssa.Call) {
+	v = stripLoad(v)
+	idx := 0
+	if ex, ok := v.(*ssa.Extract); ok {
+		v, idx = ex.Tuple, ex.Index
+	}
+	c, ok := v.(*ssa.Call)
+	if !ok || c.Common().StaticCallee() == nil {
+		return nil, nil
+	}
+	h := c.Common().StaticCallee()
+	if h.Blocks == nil || !p.InPkg(h) {
+		return nil, nil
+	}
+	var fn *ssa.Function
+	for _, ret := range returnsOf(h) {
+		if idx >= len(ret.Results) {
+			return nil, nil
+		}
+		mc, ok := res(ret, idx).(*ssa.MakeClosure)
+		if !ok {
+			return nil, nil
+		}
+		cf, ok := mc.Fn.(*ssa.Function)
+		if !ok || (fn != nil && fn != cf) {
+			return nil, nil
+		}
+		fn = cf
+	}
+	return fn, c
 }
